@@ -24,6 +24,7 @@ RULE = ("G1 (Hypothesis grammar): abstract trees (depth <= 3, fan-out <= 3; know
         "to_ical(T2) == s1. O-denote (G1 only): the first parse has exactly the names (upper-cased), parameters (quotes removed) and "
         "typed values of the abstract tree. Non-trivial: accepted input with a property whose value or parameter contains a "
         "character outside [A-Za-z0-9 -] or whose kind is not text; distinct by hash of the input.")
+RULE += ' Rounds 7-8: complete own-zone VTIMEZONE definitions with extension properties on both levels are attached to a third of the calendars; a quarter of the cases respells one property-name letter with U+017F/U+0131 (stability clause only); URL-encoded fragments (%2c, %3a, %22 ...) in mild text.'
 ASSUMPTIONS = ["generated TEXT contains no raw CR (C05/C07 cover it)", "RESOURCES is a single TEXT in this library",
                "random VTIMEZONE components of generated trees carry no TZID; complete definitions of own zones are attached as they are (what they mean is C12's domain, here only that every property of them is kept)"]
 REQUIRED_CLASSES = ["history:zone-ids-looked-up-before", "gen:tree", "gen:fixture", "accepted", "has-backslash", "multiple", "lf-only", "extra-folds", "unknown-component", "non-text-kind"]
